@@ -38,6 +38,7 @@ type loadSpec struct {
 	Overrides map[string]string // SSA function name -> harness function name
 	TimeoutMS int
 	MaxSteps  int64
+	HangViol  bool
 	XCheck    bool
 	Fixed     map[string]uint64
 	Solver    string
